@@ -24,6 +24,7 @@ open Gallia Gallia.Proto Gallia.DbLog Gallia.DbTables
     spec <n>           rows the specification demands for the first n exchanges of the program
     upd <session> <sec|none> <reply>   -> "<session> <sec|none>"  (ECU.update_state)
     shape <prefix-notation>            -> 1 / 0  (attribute value of this shape can be logged)
+    stored <wire>                      -> request bytes the row of a request with these wire bytes holds (storedRequest)
 -/
 
 structure St where
@@ -246,6 +247,10 @@ def step' (s : St) (line : String) : St × String :=
         (s, s!"{st.session} {showOptInt st.sec}")
       | none => (s, "bad-op")
     | _, _ => (s, "bad-op")
+  | ["stored", wire] =>
+    match parseHex wire with
+    | some b => (s, hexOrDash (storedRequest b))
+    | none => (s, "bad-op")
   | ["shape", sh] =>
     match parseShape (sh.length + 1) sh.toList with
     | some (x, []) => (s, if x.attrOk then "1" else "0")
